@@ -39,6 +39,8 @@ pub struct Swarm {
     pub pol_depth: u32,
     /// Several rekeys of the same policy in a row (long chains).
     pub bursts: bool,
+    /// Thousands of rights (two anarchies of 64-72 attributes); no keys or ciphertexts in such runs.
+    pub huge: bool,
 }
 
 #[derive(Clone, Copy, Debug, PartialEq, Eq)]
@@ -69,8 +71,10 @@ pub enum Op {
     ForgedRefresh,
     Hostile,
     EncryptRepeat,
+    ScaleProbe,
+    EncryptOtherThread,
 }
-pub const N_OPS: usize = 25;
+pub const N_OPS: usize = 27;
 
 /// Base weights per property profile.
 pub fn base_weights(prop: &str) -> Vec<u32> {
@@ -137,7 +141,7 @@ pub fn base_weights(prop: &str) -> Vec<u32> {
         "C16" => {
             set(stat);
             set(refresh);
-            set(&[(Rekey, 5), (EncryptRepeat, 6), (Reload, 2), (Recaps, 2), (Keygen, 5), (DisableAttr, 2), (Update, 3), (Prune, 1)]);
+            set(&[(Rekey, 5), (EncryptRepeat, 6), (Reload, 2), (Recaps, 2), (Keygen, 5), (DisableAttr, 2), (Update, 3), (Prune, 1), (EncryptOtherThread, 3)]);
         }
         "C17" => {
             set(&[(Keygen, 6), (Publish, 1), (Deliver, 6), (Encrypt, 2), (Read, 2), (RequestRefresh, 6), (Rekey, 2), (Reload, 3), (Backup, 2), (Restore, 2), (ForgedRefresh, 2)]);
@@ -159,7 +163,7 @@ pub fn base_weights(prop: &str) -> Vec<u32> {
         "C14" => {
             set(stat);
             set(refresh);
-            set(&[(Rekey, 3), (Hostile, 30)]);
+            set(&[(Rekey, 3), (Hostile, 30), (ScaleProbe, 1)]);
         }
         _ => set(stat),
     }
@@ -187,6 +191,31 @@ fn essential(prop: &str) -> Vec<Op> {
 
 impl Swarm {
     pub fn draw(prop: &str, rng: &mut Rng, thorough: bool) -> Swarm {
+        let mut sw = Self::draw_inner(prop, rng, thorough);
+        if matches!(prop, "C05" | "C09" | "C10" | "C13") && rng.below(160) == 0 {
+            // a huge structure: only master-key operations, edits and reloads
+            sw.huge = true;
+            sw.n_dims = 2;
+            sw.hybrid_pct = 0;
+            sw.hierarchy_pct = 0;
+            sw.tall = false;
+            sw.big_ids = false;
+            sw.long_names = false;
+            sw.n_users = 1;
+            sw.n_events = sw.n_events.min(25);
+            for op in [Op::Keygen, Op::Encrypt, Op::EncryptRepeat, Op::Read, Op::RequestRefresh, Op::Recaps, Op::ForgedRefresh, Op::TamperSlot, Op::TamperEnc, Op::Hostile] {
+                sw.w[op as usize] = 0;
+            }
+            for op in [Op::Update, Op::DisableAttr, Op::AddAttr, Op::Rekey, Op::Prune] {
+                if sw.w[op as usize] == 0 && base_weights(prop)[op as usize] > 0 {
+                    sw.w[op as usize] = 2;
+                }
+            }
+        }
+        sw
+    }
+
+    fn draw_inner(prop: &str, rng: &mut Rng, thorough: bool) -> Swarm {
         let mut w = base_weights(prop);
         let ess = essential(prop);
         for (i, x) in w.iter_mut().enumerate() {
@@ -235,6 +264,7 @@ impl Swarm {
             tall: rng.pct(5),
             pol_depth: *rng.pick(&[2, 2, 2, 2, 3, 3, 4]),
             bursts: rng.pct(8),
+            huge: false,
         }
     }
 }
@@ -348,7 +378,8 @@ impl Gen {
     fn fresh_attr_name(&mut self, rng: &mut Rng, d: &MDim) -> String {
         if self.sw.long_names && rng.pct(50) {
             self.name_ctr += 1;
-            let pad = rng.range(128, 200);
+            // mostly just above the one-byte length prefix, now and then above 64 KiB
+            let pad = if rng.pct(6) { rng.range(65_530, 70_000) } else { rng.range(128, 200) };
             return format!("long{}_{}", self.name_ctr, "x".repeat(pad));
         }
         for _ in 0..4 {
@@ -381,7 +412,9 @@ impl Gen {
             }
             let mut d = MDim { name: dname.clone(), hierarchy, attrs: vec![] };
             let cap = if self.sw.n_dims >= 4 { self.sw.max_attrs.min(2) } else { self.sw.max_attrs };
-            let n_attrs = if di == 0 && self.sw.tall && self.sw.n_dims <= 2 {
+            let n_attrs = if self.sw.huge {
+                rng.range(64, 72)
+            } else if di == 0 && self.sw.tall && self.sw.n_dims <= 2 {
                 rng.range(8, 10)
             } else if rng.pct(5) {
                 0
@@ -456,6 +489,16 @@ impl Gen {
 
     pub fn try_keygen(&mut self, rng: &mut Rng, w: &World, user: usize) -> Ev {
         Ev::Keygen { user, pol: self.keygen_pol(rng, w) }
+    }
+
+    /// Size of the largest user key (rights x longest chain): proxy for the cost of one decaps.
+    fn key_weight(&self, w: &World) -> usize {
+        w.users
+            .iter()
+            .filter_map(|u| u.usk.as_ref())
+            .map(|(_, m)| m.rights.len() * m.rights.values().map(|c| c.len()).max().unwrap_or(1))
+            .max()
+            .unwrap_or(1)
     }
 
     fn user_with_key(&self, rng: &mut Rng, w: &World) -> Option<usize> {
@@ -548,7 +591,7 @@ impl Gen {
     fn enc_kind(&self, rng: &mut Rng) -> EncKind {
         match *rng.pick(&self.sw.kinds) {
             0 => EncKind::Kem,
-            1 => EncKind::Pke { len: *rng.pick(LENGTHS) },
+            1 => EncKind::Pke { len: if rng.pct(2) { rng.range(1_048_577, 1_200_000) } else { *rng.pick(LENGTHS) } },
             _ => EncKind::Header {
                 meta: match rng.below(4) {
                     0 => None,
@@ -631,8 +674,10 @@ impl Gen {
             x if x == Op::Rekey as usize => {
                 let ev = Ev::Rekey { pol: self.rotation_pol(rng, w) };
                 if self.sw.bursts && rng.pct(30) {
-                    // the same policy re-keyed several times in a row: long chains
-                    for _ in 0..rng.range(3, 9) {
+                    // the same policy re-keyed several times in a row: long chains; now and then
+                    // beyond 127 revisions (two-byte chain length)
+                    let n = if rng.pct(8) { rng.range(128, 140) } else { rng.range(3, 9) };
+                    for _ in 0..n {
                         self.pending.push(ev.clone());
                     }
                 }
@@ -807,6 +852,18 @@ impl Gen {
                 Ev::TamperEnc { slot, op }
             }
             x if x == Op::Hostile as usize => self.hostile(rng, w),
+            x if x == Op::ScaleProbe as usize => {
+                // rare and cheap when the reader is linear (a few milliseconds)
+                if !rng.pct(10) {
+                    return None;
+                }
+                Ev::ScaleProbe { n: *rng.pick(&[4_000usize, 8_000, 12_000]) }
+            }
+            x if x == Op::EncryptOtherThread as usize => {
+                let es: Vec<usize> = (0..w.encryptors.len()).filter(|e| w.encryptors[*e].mpk.is_some()).collect();
+                let e = *rng.pick_opt(&es)?;
+                Ev::EncryptOtherThread { enc: e, pol: self.enc_pol(rng, w, e), n: rng.range(1, 4) as u32 }
+            }
             _ => return None,
         })
     }
@@ -858,7 +915,8 @@ impl Gen {
             _ => HostileTarget::Random { len: *rng.pick(&[0usize, 1, 2, 7, 16, 17, 40, 200, 1000]), seed: rng.next_u64() },
         };
         const BOUNDARY: &[u64] = &[0, 1, 2, 127, 128, 255, 16383, 16384, 1 << 31, (1 << 32) - 1, 1 << 32, 1 << 45, 1 << 62, 1 << 63, u64::MAX];
-        let mutation = match rng.below(11) {
+        let mutation = match rng.below(12) {
+            11 => HostileMut::FieldPadded { k: rng.below(40), delta: *rng.pick(&[0u64, 0, 1, 1, 2, 3]), pad: rng.range(1, 3) as u8 },
             10 => HostileMut::Empty { which: rng.below(7) as u8 },
             0 => HostileMut::None,
             1 | 2 => HostileMut::Truncate { len: rng.below(6000) },
@@ -927,8 +985,16 @@ impl Gen {
                         1 => SweepMode::Truncations,
                         _ => SweepMode::ByteOverwrites,
                     };
-                    let big = w.slots[slot].orig.len() > 400;
-                    let stride = if thorough { 1 } else if matches!(mode, SweepMode::BitFlips) { if big { 61 } else { 7 } } else if big { 13 } else { 1 };
+                    // bounded work per sweep: positions x 2 readers x cost of one read (which grows
+                    // with the size of the readers' keys); exhaustive when it fits, strided otherwise
+                    let positions = match mode {
+                        SweepMode::BitFlips => w.slots[slot].orig.len() * 8,
+                        _ => w.slots[slot].orig.len(),
+                    };
+                    // one read costs about (secrets in the key) x (components) group operations
+                    let units = positions * 2 * self.key_weight(w).max(1) * w.slots[slot].m.targets.len().max(1);
+                    let cap = if thorough { 60_000 } else { 8_000 };
+                    let stride = units.div_ceil(cap).max(1);
                     evs.push(Ev::SweepSlot { slot, mode, stride });
                 }
             }
@@ -945,8 +1011,10 @@ impl Gen {
                         // bound the work of one sweep (parses): exhaustive for objects up to the
                         // cap, strided above it
                         let len = crate::run::hostile_bytes(w, &target, &HostileMut::None, &parser).map(|b| b.len()).unwrap_or(0);
-                        let cap = if thorough { 60_000 } else { 3_000 };
-                        let stride = (len * 4).div_ceil(cap).max(1);
+                        // every parsed mutant is used with the users' keys: the cost of one call
+                        // grows with the size of those keys, the cap shrinks accordingly
+                        let cap = (if thorough { 40_000 } else { 3_000 }) * 8 / self.key_weight(w).max(8);
+                        let stride = (len * 4).div_ceil(cap.max(50)).max(1);
                         evs.push(Ev::SweepHostile { target, parser, stride });
                     }
                 }
